@@ -6,33 +6,33 @@ open PdshVerif.Dsh.Fan (Variant DPC)
 
 /-! ## tables: what a local move `p → q` of a worker under action `a` means for the predicates -/
 
-theorem tbl_ends {a : WAct} {p q : WP} {c : Bool} (h : wNext a p c = some q) : p ≠ .idle ∧ p ≠ .done ∧ q ≠ .idle := by
-  cases c <;> cases a <;> (try (rename_i ok; cases ok)) <;> cases p <;> simp [wNext] at h <;> (try subst h) <;> simp
+theorem tbl_ends {g : Bool} {a : WAct} {p q : WP} {c : Bool} (h : wNext g a p c = some q) : p ≠ .idle ∧ p ≠ .done ∧ q ≠ .idle := by
+  cases g <;> cases c <;> cases a <;> (try (rename_i ok; cases ok)) <;> cases p <;> simp [wNext] at h <;> (try subst h) <;> simp
 
-theorem tbl_holdsW {a : WAct} {p q : WP} {c : Bool} (h : wNext a p c = some q) :
+theorem tbl_holdsW {g : Bool} {a : WAct} {p q : WP} {c : Bool} (h : wNext g a p c = some q) :
     (holdsW p = true ↔ (a = .signal ∨ a = .unlock)) ∧ (holdsW q = true ↔ (a = .lock ∨ a = .signal)) := by
-  cases c <;> cases a <;> (try (rename_i ok; cases ok)) <;> cases p <;> simp [wNext] at h <;> (try subst h) <;>
+  cases g <;> cases c <;> cases a <;> (try (rename_i ok; cases ok)) <;> cases p <;> simp [wNext] at h <;> (try subst h) <;>
     simp [holdsW]
 
-theorem tbl_holdsT {a : WAct} {p q : WP} {c : Bool} (h : wNext a p c = some q) :
+theorem tbl_holdsT {g : Bool} {a : WAct} {p q : WP} {c : Bool} (h : wNext g a p c = some q) :
     (holdsT p = true ↔ (a = .time ∨ a = .unlockT)) ∧ (holdsT q = true ↔ (a = .lockT ∨ a = .time)) := by
-  cases c <;> cases a <;> (try (rename_i ok; cases ok)) <;> cases p <;> simp [wNext] at h <;> (try subst h) <;>
+  cases g <;> cases c <;> cases a <;> (try (rename_i ok; cases ok)) <;> cases p <;> simp [wNext] at h <;> (try subst h) <;>
     simp [holdsT]
 
-theorem tbl_counted {a : WAct} {p q : WP} {c : Bool} (h : wNext a p c = some q) :
+theorem tbl_counted {g : Bool} {a : WAct} {p q : WP} {c : Bool} (h : wNext g a p c = some q) :
     (counted p = true ↔ ¬ (a = .signal ∨ a = .unlock)) ∧
     (counted q = true ↔ ¬ (a = .lock ∨ a = .signal ∨ a = .unlock)) := by
-  cases c <;> cases a <;> (try (rename_i ok; cases ok)) <;> cases p <;> simp [wNext] at h <;> (try subst h) <;>
+  cases g <;> cases c <;> cases a <;> (try (rename_i ok; cases ok)) <;> cases p <;> simp [wNext] at h <;> (try subst h) <;>
     simp [counted]
 
-theorem tbl_isLocked {a : WAct} {p q : WP} {c : Bool} (h : wNext a p c = some q) :
+theorem tbl_isLocked {g : Bool} {a : WAct} {p q : WP} {c : Bool} (h : wNext g a p c = some q) :
     (isLocked p = true ↔ a = .signal) ∧ (isLocked q = true ↔ a = .lock) := by
-  cases c <;> cases a <;> (try (rename_i ok; cases ok)) <;> cases p <;> simp [wNext] at h <;> (try subst h) <;>
+  cases g <;> cases c <;> cases a <;> (try (rename_i ok; cases ok)) <;> cases p <;> simp [wNext] at h <;> (try subst h) <;>
     simp [isLocked]
 
-theorem tbl_okTS {a : WAct} {p q : WP} {t : TS} (h : wNext a p (t == .canceled) = some q) (hok : okTS p t = true) :
-    okTS q (wWrite a p t) = true := by
-  cases t <;> cases a <;> (try (rename_i ok; cases ok)) <;> cases p <;> simp [wNext] at h <;> (try subst h) <;>
+theorem tbl_okTS {g : Bool} {a : WAct} {p q : WP} {t : TS} (h : wNext g a p (t == .canceled) = some q) (hok : okTS p t = true) :
+    okTS q (wWrite g a p t) = true := by
+  cases g <;> cases t <;> cases a <;> (try (rename_i ok; cases ok)) <;> cases p <;> simp [wNext] at h <;> (try subst h) <;>
     simp_all [okTS, wWrite]
 
 /-! ## common facts about a worker step -/
@@ -40,13 +40,13 @@ theorem tbl_okTS {a : WAct} {p q : WP} {t : TS} (h : wNext a p (t == .canceled) 
 structure WFacts (s : St) (i : Nat) (a : WAct) (p q : WP) : Prop where
   hi : i < s.ws.length
   hpci : pc s i = p
-  next : wNext a p (tsAt s i == .canceled) = some q
+  next : wNext s.g a p (tsAt s i == .canceled) = some q
   gT : a = .lockT → s.thd = .none
   gO : a = .lock → s.own = .none
 
 theorem w_facts {s s' : St} {i : Nat} {a : WAct} (hs : wStep s i a = some s') :
     ∃ p q, WFacts s i a p q ∧
-      s' = wEffect i { s with ws := s.ws.set i q, ts := s.ts.set i (wWrite a p (tsAt s i)) } a := by
+      s' = wEffect i { s with ws := s.ws.set i q, ts := s.ts.set i (wWrite s.g a p (tsAt s i)) } a := by
   obtain ⟨p, q, hp, hn, hgT, hgO, rfl⟩ := w_step_facts hs
   exact ⟨p, q, ⟨lt_of_getElem?' hp, getD_of_getElem?' hp, hn, hgT, hgO⟩, rfl⟩
 
@@ -64,7 +64,7 @@ theorem minv_w {s s' : St} {i : Nat} {a : WAct} (hm : MInv s) (hs : wStep s i a 
   have ⟨h1, h2, h3, h4, h5, h6, h7, h8, h9⟩ := hm
   have ⟨wp, wq⟩ := tbl_holdsW hn
   have ⟨tp, tq⟩ := tbl_holdsT hn
-  have hpc := fun j => pc_after (s := s) (a := a) (q := q) (x := wWrite a p (tsAt s i)) hi j
+  have hpc := fun j => pc_after (s := s) (a := a) (q := q) (x := wWrite s.g a p (tsAt s i)) hi j
   have hownI := h2 i
   have hthdI := h6 i
   rw [hpci] at hownI hthdI
@@ -179,8 +179,8 @@ theorem finv_w {s s' : St} {i : Nat} {a : WAct} (hm : MInv s) (ht : TInv s) (h :
   have ⟨cp, cq⟩ := tbl_counted hn
   have ⟨lp, lq⟩ := tbl_isLocked hn
   have ⟨wp, wq⟩ := tbl_holdsW hn
-  have hpc := fun j => pc_after (s := s) (a := a) (q := q) (x := wWrite a p (tsAt s i)) hi j
-  have hts := fun j => tsAt_after (s := s) (a := a) (q := q) (x := wWrite a p (tsAt s i)) (i := i)
+  have hpc := fun j => pc_after (s := s) (a := a) (q := q) (x := wWrite s.g a p (tsAt s i)) hi j
+  have hts := fun j => tsAt_after (s := s) (a := a) (q := q) (x := wWrite s.g a p (tsAt s i)) (i := i)
     (by rw [ht.len]; exact hi) j
   have hget : s.ws[i]? = some p := getElem?_of_getD_lt hi hpci
   have hcC := countP_set_of' counted (b := q) hget
@@ -193,7 +193,7 @@ theorem finv_w {s s' : St} {i : Nat} {a : WAct} (hm : MInv s) (ht : TInv s) (h :
     cases hf : s.dpc.finished with
     | false => rfl
     | true => have := h8 hf i hi; rw [hpci] at this; rcases this with h | h <;> simp_all
-  have hfrs : frontier (wEffect i { s with ws := s.ws.set i q, ts := s.ts.set i (wWrite a p (tsAt s i)) } a) =
+  have hfrs : frontier (wEffect i { s with ws := s.ws.set i q, ts := s.ts.set i (wWrite s.g a p (tsAt s i)) } a) =
       frontier s := by simp [frontier, wEffect_dpc, wEffect_i]
   have hnh_lock : a = .lock → s.dpc.holds = false := by
     intro ha; have := hgO ha
